@@ -23,10 +23,11 @@ EntryFns == << "ee", "gcd", "lcm" >>
 IntFn(c, oe, fn) ==
     CASE fn = "ee" -> OneV3(JudgeEE(c, oe.ee)) [] fn = "gcd" -> OneV3(JudgeGcd(c, oe.g)) [] fn = "lcm" -> OneV3(JudgeLcm(c, oe.l))
 BigFn(c, oe, fn) ==
-    LET at == IF BeyondFloat(c) THEN "beyond-2^53" ELSE ""
-        \* a refusal carries the exception class, a wrong value whether floats could be the cause
+    LET \* a refusal carries the exception class, a wrong lcm whether it lies beyond the integers
+        \* a float holds exactly
         one(v, ob) == IF v = "OK" THEN << >> ELSE IF v = "SKIP" THEN << F("SKIP", "") >>
-                      ELSE << F(v, IF v \in {"ee-raised", "gcd-raised", "lcm-raised"} THEN ob.e ELSE at) >>
+                      ELSE << F(v, IF v \in {"ee-raised", "gcd-raised", "lcm-raised"} THEN ob.e
+                                   ELSE IF v = "lcm-wrong" /\ BigOK(c) /\ BeyondFloat(c) THEN "beyond-2^53" ELSE "") >>
     IN CASE fn = "ee" -> one(JudgeBigEE(c, oe.ee), oe.ee) [] fn = "gcd" -> one(JudgeBigGcd(c, oe.g), oe.g)
          [] fn = "lcm" -> one(JudgeBigLcm(c, oe.l), oe.l)
 
